@@ -58,6 +58,22 @@ def check(rep):
                                   budget_s=100 if quick else 1500)
     choices = 0
     distinct = set()
+    # (d) the law of the notation at EVERY decision: the model's Choice events are that law (C08_law_proportional, C08_transition_list,
+    # C08_candidates are theorems about exactly these values); a decision whose candidates or probabilities differ is a failing input of C08
+    for c in cases:
+        mo = getattr(c, "mo", None)
+        if mo is None or getattr(c, "near", False) or not isinstance(mo, dict) or "trace" not in mo:
+            continue
+        mch = [ev for ev in mo["trace"] if ev[0] == "c"]      # ["c", cands, p, k]
+        for n, ((cands, p, k), ev) in enumerate(zip(c.run.rng.log, mch)):
+            mp = [float(Fr(x)) for x in ev[2]]
+            mc = ev[1]
+            if p is None or mc is None:
+                continue
+            if list(cands) != list(mc) or len(mp) != len(p) or any(abs(a - b) > 1e-9 for a, b in zip(p, mp)):
+                rep.fail("oracle", f"decision {n}: the generator was handed candidates {list(cands)} with p={[round(x, 6) for x in p]}; the notation's law there is candidates {list(mc)} "
+                         f"with p={[round(x, 6) for x in mp]}", {**c.ident(), "decision": n}, expected=f"{list(mc)} {[round(x, 6) for x in mp]}", observed=f"{list(cands)} {[round(x, 6) for x in p]}")
+                break
     for c in cases:
         for n, (cands, p, k) in enumerate(c.run.rng.log):
             choices += 1
